@@ -219,7 +219,7 @@ func init() {
 // ---- a failed operation is not a successful write ---------------------------------------------------------------
 // "Get returns the bytes of the most recent SUCCESSFUL Put ...": for every history of the level, every I/O call of the
 // LAST operation fails once (EIO; for writes also a short write). If the operation then reports an error, every read
-// path still shows the mapping before it; if it reports success, the mapping after it. Two further writes and a
+// path still shows the mapping before it; if it reports success, the mapping after it. A committed batch, two further writes and a
 // restart follow: the instance keeps working, the directory opens, and the recovered mapping is the live one - except
 // that the failed operation itself may or may not have reached the log (its write may have succeeded before a later
 // call failed): both are accepted after the restart.
@@ -310,39 +310,66 @@ func runC01Fault(cfg Cfg, keys []string, ops []Op, res *TaskResult) *Violation {
 			if c, d := w.CheckReads(); c != "" {
 				return fail("fault-mapping:"+c, fmt.Sprintf("%s returned %s; afterwards: %s\nmapping before the operation: %s", last, errClass(ar.Err), d, modelString(before)))
 			}
-			// the instance keeps working
-			for _, op := range []Op{{K: "put", Key: "a", VC: "S"}, {K: "put", Key: "b", VC: "S"}} {
-				ar2 := w.Apply(op)
-				if errClass(ar2.Err) == "panic" {
-					return fail("fault-then-panic", fmt.Sprintf("%s returned %s; the next %s panicked: %s", last, errClass(ar.Err), op, panicDetail(ar2.Err)))
-				}
-				if ar2.Err != nil || w.Dead {
-					res.count("later_write_refused", 1)
-					break // refusing further writes after an I/O error is an error return, not a wrong answer
-				}
-				if c, d := w.CheckReads(); c != "" {
-					return fail("fault-then-mapping:"+c, fmt.Sprintf("%s returned %s; after the next %s: %s", last, errClass(ar.Err), op, d))
+			// the instance keeps working: a committed batch on key a, then a restart. The failed operation may have reached
+			// the log if it was a plain Put / Delete (its write may have succeeded before a later call failed): then both
+			// the mapping with and without it are accepted after the restart. A batch whose Commit failed has no sealing
+			// record: it stays invisible.
+			var alt map[string]string
+			if ar.Err != nil && last.K != "batch" {
+				alt = copyModel(before)
+				switch last.K {
+				case "put":
+					alt[last.Key] = string(w.lastValue)
+				case "del":
+					delete(alt, last.Key)
 				}
 			}
-			if w.Dead || w.DB == nil {
+			follow := Op{K: "batch", Sub: []Op{{K: "put", Key: "a", VC: "S"}}}
+			ar2 := w.Apply(follow)
+			if errClass(ar2.Err) == "panic" {
+				return fail("fault-then-panic", fmt.Sprintf("%s returned %s; the next %s panicked: %s", last, errClass(ar.Err), follow, panicDetail(ar2.Err)))
+			}
+			if ar2.Err != nil || w.Dead || w.DB == nil {
+				res.count("later_write_refused", 1) // refusing further writes after an I/O error is an error return, not a wrong answer
 				w.Destroy()
 				continue
 			}
-			live := copyModel(w.Model)
+			if c, d := w.CheckReads(); c != "" {
+				return fail("fault-then-mapping:"+c, fmt.Sprintf("%s returned %s; after the next %s: %s", last, errClass(ar.Err), follow, d))
+			}
+			if alt != nil {
+				alt["a"] = w.Model["a"]
+			}
 			if err := w.Close(); err != nil {
 				res.count("close_failed_after_fault", 1)
 				w.Destroy()
 				continue
 			}
 			if err := w.Open(); err != nil {
-				return fail("fault-restart", fmt.Sprintf("%s returned %s; after two more writes and a clean Close, Open fails: %s", last, errClass(ar.Err), panicDetail(err)))
+				return fail("fault-restart", fmt.Sprintf("%s returned %s; after a committed batch and a clean Close, Open fails: %s", last, errClass(ar.Err), panicDetail(err)))
 			}
-			// the failed operation may have reached the log: for keys the two later writes did not overwrite, both the
-			// mapping with and without it are accepted; they overwrite a and b, so the live mapping is THE answer unless
-			// the failed operation touched another key (it does not in this alphabet)
-			w.Model = live
 			if c, d := w.CheckReads(); c != "" {
-				return fail("fault-restart-mapping:"+c, fmt.Sprintf("%s returned %s; after two more writes and a restart: %s", last, errClass(ar.Err), d))
+				okAlt := false
+				if alt != nil {
+					live := w.Model
+					w.Model = alt
+					if c2, _ := w.CheckReads(); c2 == "" {
+						okAlt = true
+					} else {
+						w.Model = live
+					}
+				}
+				if !okAlt {
+					return fail("fault-restart-mapping:"+c, fmt.Sprintf("%s returned %s; after a committed batch [put a] and a restart: %s\nmapping before the restart: %s", last, errClass(ar.Err), d, modelString(w.Model)))
+				}
+			}
+			for _, op := range []Op{{K: "put", Key: "a", VC: "S"}, {K: "put", Key: "b", VC: "S"}} {
+				if ar3 := w.Apply(op); ar3.Err != nil || w.Dead {
+					return fail("fault-then-write", fmt.Sprintf("%s returned %s; after the restart %s fails: %s", last, errClass(ar.Err), op, panicDetail(ar3.Err)))
+				}
+				if c, d := w.CheckReads(); c != "" {
+					return fail("fault-then-mapping:"+c, fmt.Sprintf("%s returned %s; after the restart and %s: %s", last, errClass(ar.Err), op, d))
+				}
 			}
 			w.Destroy()
 		}
